@@ -296,7 +296,10 @@ class DictDecoder:
             # field can support any object return the value as it is
             return value
 
-        value = converter.serialize(value)
+        try:
+            value = converter.serialize(value)
+        except TypeError as e:
+            raise ParserError(e)
 
         # Convert value according to the field types
         return ParserUtils.parse_var(
